@@ -290,7 +290,9 @@ func scaledSentences() (conds []c09Str, cvals val.Item, upds []c09Str, uvals val
 	// condition that is false they are refused all the same (checkUpdate sends them that way too)
 	for _, u := range []string{"SET a = if_not_exists(a, :one, :one)", "SET a = if_not_exists(a)", "SET l = list_append(l)", "SET l = list_append(l, :biglist, :biglist)", "SET a = size(l)",
 		"SET a = attribute_exists(l)", "SET a = contains(l, :one)", "SET a = begins_with(s, :str)", "SET a + a = :one", "SET size(a) = :one", "SET if_not_exists(a, :one) = :one", "REMOVE size(a)",
-		"REMOVE a + a", "ADD size(a) :one", "SET a = :one REMOVE if_not_exists(a, :one)", "SET a = nosuchfunction(a)", "SET a = if_not_exists(a, list_append(l))"} {
+		"REMOVE a + a", "ADD size(a) :one", "SET a = :one REMOVE if_not_exists(a, :one)", "SET a = nosuchfunction(a)", "SET a = if_not_exists(a, list_append(l))",
+		// the operand of ADD / DELETE is a value - nothing that is computed
+		"ADD n :one + :one", "ADD n :one - n", "ADD n if_not_exists(nope, :one)", "ADD n m.k.y", "DELETE ss list_append(l, l)", "ADD n n + :one SET s = :str", "DELETE ss if_not_exists(nope, :ssa)"} {
 		upds = append(upds, c09Str{u, "static-update-defect"})
 	}
 	upds = append(upds, c09Str{"ADD ss :bigset", "scaled-update"}, c09Str{"DELETE ss :bigset", "scaled-update"}, c09Str{"SET l = list_append(l, :biglist)", "scaled-update"},
@@ -520,7 +522,7 @@ func (p *c09) checkUpdate(x *res, s c09Str, names map[string]string, values val.
 	case got == "panic":
 		x.viol("runtime-panic", site, fmt.Sprintf("update %q: runtime panic at %s: %s", s.s, site, msg), wit)
 		return
-	case got == "ok" && !sentence:
+	case got == "ok" && (!sentence || s.kind == "static-update-defect"):
 		x.viol("accepts-non-sentence", "update", fmt.Sprintf("update %q (%s) is not a sentence of the grammar but was applied: %s", s.s, s.kind, diffAttrs(after, base)), wit)
 	case got == "reject" && !val.ItemsEqual(after, base):
 		x.viol("rejected-update-changed-item", "update", fmt.Sprintf("update %q was rejected (%s) but changed the item: %s", s.s, msg, diffAttrs(after, base)), wit)
